@@ -258,7 +258,9 @@ class CallMixin(ExprMixin):
             deco = fi.decorators
             if any(d.endswith("contextmanager") for d in deco):
                 return [(st, ("$cmgen", fi, frame, sub))]
-            raise EngineError(f"{ctx.func.key()}:{line}: inline call of generator function {fi.key()} (needs a generator contract)")
+            # an inlined (non context-manager) generator function: only usable as the operand of `yield from` inside a
+            # generator under contract; its yields are the caller's yields (verify.ev_YieldFrom)
+            return [(st, ("$inlgen", fi, frame, sub))]
         st.depth += 1
         out = []
         for s, oc in self.exec_block(fi.node.body, st, sub):
